@@ -20,7 +20,7 @@ func init() {
 		ID:         "C06",
 		Level:      "fault_enumeration",
 		Exhaustive: true,
-		Rule: "base tokens = {delegation, invocation} x key algorithms x {minimal, all optionals, nested} payload shapes (quick: 2 Ed25519 + 2 other-algorithm tokens; thorough: all 7 pool key kinds x 2 types x 3 shapes). Fault enumeration on each sealed token: EVERY single-bit flip (exhaustive for Ed25519 bases, 1-in-4 sampled for the others in quick, exhaustive in thorough); every offset x {delete, insert 0x00/0xFF/duplicate, substitute}; field-level rewrites with the old signature (each payload field <- another valid value); signature replaced (other key, other token of the same issuer, every truncation incl. empty, zeroed); header replaced by each other algorithm's header, unsigned and re-signed with the issuer key; envelope shape edits (extra SigPayload key, payload under the other tag, both re-signed); the field-level mutants also as DAG-JSON text plus character edits. Every mutant is offered to every decoder of its codec (token.*, delegation.* / invocation.*, bytes and reader). " +
+		Rule: "base tokens = {delegation, invocation} x key algorithms x {minimal, all optionals, nested} payload shapes (quick: 2 Ed25519 + 2 other-algorithm tokens; thorough: all 7 pool key kinds x 2 types x 3 shapes). Fault enumeration on each sealed token: EVERY single-bit flip (exhaustive for Ed25519 bases, 1-in-4 sampled for the others in quick, exhaustive in thorough); every offset x {delete, insert 0x00/0xFF/duplicate, substitute}; field-level rewrites with the old signature (each payload field <- another valid value); signature replaced (other key, other token of the same issuer, every truncation incl. empty, zeroed, junk of 21 lengths from 1 to 70000 bytes alone and on a rewritten payload, real signature extended); header replaced by each other algorithm's header, unsigned and re-signed with the issuer key; envelope shape edits (extra SigPayload key, payload under the other tag, both re-signed); the field-level mutants also as DAG-JSON text plus character edits. Every mutant is offered to every decoder of its codec (token.*, delegation.* / invocation.*, bytes and reader). " +
 			"Oracles on every accepted mutant: (O1) no field differs from the original token; (O2) an independent envelope verifier (own did:key -> key extraction, canonical re-encoding, header/key-type match) accepts it; (O3) the returned token's accessors equal the decoded payload. " +
 			"non-trivial = mutant that still parses as CBOR/JSON; distinct = mutant bytes.",
 		Assumptions: []string{
@@ -32,7 +32,7 @@ func init() {
 		MinEvals:    floor(200000, 3000000),
 		MinDistinct: floor(8000, 150000),
 		RequiredCells: func(string) []string {
-			return []string{"mut/bitflip", "mut/delete", "mut/insert", "mut/substitute", "mut/field-rewrite", "mut/sig-other-key", "mut/sig-transplant", "mut/sig-truncated", "mut/sig-zeroed", "mut/header-swap", "mut/header-swap-resigned", "mut/extra-key-resigned", "mut/other-tag-resigned", "mut/json-field-rewrite", "mut/json-char-edit",
+			return []string{"mut/bitflip", "mut/delete", "mut/insert", "mut/substitute", "mut/field-rewrite", "mut/sig-other-key", "mut/sig-transplant", "mut/sig-truncated", "mut/sig-zeroed", "mut/sig-junk", "mut/sig-junk-on-rewritten-payload", "mut/sig-extended", "mut/header-swap", "mut/header-swap-resigned", "mut/extra-key-resigned", "mut/other-tag-resigned", "mut/json-field-rewrite", "mut/json-char-edit",
 				"outcome/rejected", "outcome/accepted-same-content", "base/dlg", "base/inv", "base/ed25519", "base/non-ed25519"}
 		},
 	})
@@ -50,7 +50,7 @@ type c06Base struct {
 }
 
 func c06MakeBase(w *mon.W, typ, shape string, iss *gen.Principal) *c06Base {
-	o := gen.SpecOpts{Issuer: iss, Val: gen.ValOpts{}}
+	o := gen.SpecOpts{Issuer: iss, Val: gen.ValOpts{}, NoBig: true}
 	switch shape {
 	case "minimal":
 		o.Minimal = true
@@ -431,6 +431,24 @@ func runC06(w *mon.W) {
 				continue
 			}
 			c06Offer(w, b, "sig-truncated", sigEnv(b.info.Sig[:k]), "dagcbor", decs)
+		}
+		// junk signatures of every length class (shorter, equal, longer, far longer than any real
+		// signature), alone and on a payload with a rewritten field, and the real signature extended
+		rewritten := c06FieldRewrites(w, b)["cmd-top"]
+		for _, n := range []int{1, 16, 63, 64, 65, 71, 72, 96, 132, 139, 256, 257, 384, 512, 1023, 1024, 1025, 2048, 4096, 8192, 70000} {
+			junk := gen.Bytes(r, n)
+			c06Offer(w, b, "sig-junk", sigEnv(junk), "dagcbor", decs)
+			e := cloneV(rewritten)
+			e.L[0] = ref.Bytes(junk)
+			if enc, err := ref.EncodeDagCbor(e); err == nil {
+				c06Offer(w, b, "sig-junk-on-rewritten-payload", enc, "dagcbor", decs)
+			}
+			if b.json != nil && n <= 4096 {
+				if enc, err := ref.EncodeDagJson(e); err == nil {
+					c06Offer(w, b, "json-sig-junk-on-rewritten-payload", enc, "dagjson", decs)
+				}
+			}
+			c06Offer(w, b, "sig-extended", sigEnv(append(append([]byte{}, b.info.Sig...), junk...)), "dagcbor", decs)
 		}
 		// 5. header swaps
 		for hname, h := range ref.AllVarsigHeaders() {
